@@ -24,7 +24,7 @@ RULE = (
     " 64-byte proof, proof of a wrong-code accessory, proof absent; M6 with single-bit flips of EncryptedData (every byte,"
     " stride through bits; exhaustive in thorough), encrypted under another key / nonce label, signed by another key or"
     " over another id/key/permuted transcript, each inner field removed, plaintext truncated at each TLV boundary, outer"
-    " stream truncated; identifier presented in another letter case than the signed one; a second Identifier / PublicKey item before or after the signed ones; State item of M2/M4/M6 altered to every other value, EMPTY or over-long; EVERY step answered with an error code (0x00..0x08, 0x80, 0xFF, empty) next to otherwise valid fields, with and without State, or alone. Accessory identifiers include lower/mixed-case and non-ASCII ones. Distinct by (exchange parameters, mutation); non-trivial = all."
+    " stream truncated; identifier presented in another letter case than the signed one; a second Identifier / PublicKey item before or after the signed ones; State item of M2/M4/M6 altered to every other value, EMPTY or over-long; EVERY step answered with an error code (0x00..0x08, 0x80, 0xFF, empty) next to otherwise valid fields, with and without State, or alone. Accessory identifiers include lower/mixed-case and non-ASCII ones. TRANSPORT LEVEL: BleDiscovery / IpDiscovery / CoAP do_pair_setup end to end against the reference accessory (a new SRP session per M1): clean, wrong code, wrong code then the right one, and (BLE) a link drop at the first write, at M3, at M5 or later, which makes the driver restart pair-setup. Distinct by (exchange parameters, mutation); non-trivial = all."
 )
 ASSUMPTIONS = [
     "conformant accessory as in C02 (padding convention) and HAP spec 5.6 labels",
@@ -33,7 +33,8 @@ ASSUMPTIONS = [
 SHARDS = {"quick": 16, "thorough": 16}
 TIMEOUT = {"quick": 900, "thorough": 7200}
 MIN_CASES = {"quick": 1200, "thorough": 15000}
-REQUIRED_COUNTERS = ["honest_accepted", "accessory_accepted_m3", "accessory_accepted_m5", "adversarial_rejected", "m4_proof_flips", "m6_cipher_flips", "directed_leading_zero_K", "directed_leading_zero_S", "directed_leading_zero_A", "directed_leading_zero_M2"]
+REQUIRED_COUNTERS = ["honest_accepted", "accessory_accepted_m3", "accessory_accepted_m5", "adversarial_rejected", "m4_proof_flips", "m6_cipher_flips", "directed_leading_zero_K", "directed_leading_zero_S", "directed_leading_zero_A", "directed_leading_zero_M2",
+                     "ble_setups_completed", "ble_setups_restarted", "ip_setups_completed", "coap_setups_completed", "transport_setups_wrong_code_refused"]
 
 
 def make_acc(rng, code=None, pairing_id=None):
@@ -381,9 +382,18 @@ def run(ctx) -> None:
     for j, (name, arg, k) in enumerate(adversarial_plan(ctx)):
         if ctx.mine(j):
             check_adversarial(ctx, name, arg, k, j)
+    # the transports' own pair-setup drivers, end to end (BLE with link drops / a wrong code first, IP, CoAP)
+    from vf import setup_transports, vloop
+
+    vloop.run(setup_transports.run_all(ctx))
 
 
 def replay(ctx, d) -> None:
+    if d["kind"].endswith("-setup"):
+        from vf import setup_transports, vloop
+
+        vloop.run(setup_transports.replay(ctx, d))
+        return
     if d["kind"] == "honest" and d.get("directed"):
         ctx.mark_inconclusive("directed cases are re-run by the whole check (their RNG key is part of the plan)")
     elif d["kind"] == "honest":
